@@ -124,6 +124,8 @@ func ctxState(ctx context.Context) string {
 	}
 }
 
+const maxAttempts = 400
+
 func key(edge string, d core.Duty) string { return fmt.Sprintf("%s|%d|%d", edge, d.Type, d.Slot) }
 
 // mkErr builds the error value a script entry describes.
@@ -198,6 +200,12 @@ func (e *env) attempt(edge string, duty core.Duty, ctx context.Context) error {
 	})
 	if i == 0 {
 		go e.watch(ctx, c)
+	}
+	if i >= maxAttempts { // a runaway loop: stop feeding it (the drain then reports the hang)
+		<-e.quit
+		e.log(drv.Step{"ev": "AEnd", "c": c.id, "i": i, "res": drv.Step{"kind": "ok", "txt": ""}}, func() { e.running-- })
+
+		return nil
 	}
 	sc := c.script[len(c.script)-1]
 	if i < len(c.script) {
